@@ -689,6 +689,12 @@ pub struct Session {
     vm: Option<nederlang::vm::VM>,
     /// the lines so far with their budgets (journalled, so that a dying worker can be attributed to its session)
     history: Vec<(String, u64)>,
+    /// C02: verify the bytecode of every line statically (all paths) and give its instruction boundaries to the fetch probe
+    pub verify: Option<crate::bytecode::Table>,
+    /// what the verifier found, per line: (line number, class, detail)
+    pub findings: Vec<(usize, String, String)>,
+    /// C04: the heap objects of the results the lines handed to the caller (each once)
+    handed: Vec<Object>,
 }
 
 pub fn session_begin() -> Session {
@@ -698,7 +704,7 @@ pub fn session_begin() -> Session {
     verif::set_boundaries(None);
     take_last_panic();
     GCSTATS.with(|g| *g.borrow_mut() = GcStats::default());
-    Session { compiler: Some(nederlang::compiler::Compiler::new()), vm: Some(nederlang::vm::VM::new()), history: Vec::new() }
+    Session { compiler: Some(nederlang::compiler::Compiler::new()), vm: Some(nederlang::vm::VM::new()), history: Vec::new(), verify: None, findings: Vec::new(), handed: Vec::new() }
 }
 
 impl Session {
@@ -713,11 +719,22 @@ impl Session {
         verif::take_events();
         let compiler = self.compiler.as_mut().unwrap();
         let vm = self.vm.as_mut().unwrap();
+        let table = self.verify.as_ref();
+        let line_no = self.history.len() - 1;
+        let mut found: Vec<(usize, String, String)> = Vec::new();
         let r = catch_unwind(AssertUnwindSafe(|| {
             let ast = nederlang::parser::parse(text)?;
             let code = compiler.compile_ast(&ast)?;
+            if let Some(t) = table {
+                for f in crate::verifier::verify(&code, t).findings {
+                    found.push((line_no, f.class, f.detail));
+                }
+                verif::set_boundaries(crate::verifier::boundaries(&code, t));
+            }
             vm.run(code)
         }));
+        verif::set_boundaries(None);
+        self.findings.extend(found);
         let ticks = verif::ticks();
         let mut w = Walker::new();
         let outcome = match r {
@@ -725,10 +742,51 @@ impl Session {
             Err(p) => classify_unwind(p),
         };
         // the result is not released: it may be a value the session still refers to (the prompt only prints it)
+        for o in w.heap_objects.iter() {
+            if !self.handed.iter().any(|h| obj_addr(*h) == obj_addr(*o)) {
+                self.handed.push(*o);
+            }
+        }
         let output = verif::capture_take();
         let events: Vec<String> = verif::take_events().iter().map(|e| scrub(e)).collect();
         verif::set_budget(u64::MAX);
         Obs { outcome, output, events, ticks, heap: HeapReport::default() }
+    }
+    /// Ends the session like `end` and audits the ledger (C04): returns (events while the machine and the compiler are
+    /// dropped, blocks still live afterwards that no result handed to the caller reaches, events while the caller
+    /// releases those results, blocks live after that)
+    pub fn end_audit(mut self) -> (Vec<String>, usize, Vec<String>, usize) {
+        let vm = self.vm.take();
+        let compiler = self.compiler.take();
+        let _ = catch_unwind(AssertUnwindSafe(move || {
+            drop(vm);
+            drop(compiler);
+        }));
+        let drop_events: Vec<String> = verif::take_events().iter().map(|e| scrub(e)).collect();
+        // what the caller owns: everything the handed-over results reach (live blocks only)
+        let mut owned: HashMap<usize, Object> = HashMap::new();
+        let mut work: Vec<Object> = self.handed.clone();
+        while let Some(o) = work.pop() {
+            if !o.is_heap_allocated() || owned.contains_key(&obj_addr(o)) || verif::heap_is_live(o) != Some(true) {
+                continue;
+            }
+            owned.insert(obj_addr(o), o);
+            if o.tag() == Type::Array {
+                work.extend(o.as_vec().iter().copied());
+            }
+        }
+        let live: Vec<usize> = verif::heap_live_blocks();
+        let unowned = live.iter().filter(|a| !owned.contains_key(a)).count();
+        let mut addrs: Vec<usize> = owned.keys().copied().collect();
+        addrs.sort();
+        for a in addrs {
+            let o = owned[&a];
+            let _ = catch_unwind(AssertUnwindSafe(|| o.free()));
+        }
+        let release_events: Vec<String> = verif::take_events().iter().map(|e| scrub(e)).collect();
+        let left = verif::heap_live();
+        verif::heap_reset();
+        (drop_events, unowned, release_events, left)
     }
     pub fn end(mut self) {
         let vm = self.vm.take();
